@@ -152,4 +152,31 @@ example : readLinkB (writeLinkB '/' (readLinkB (utf8 "a//b/".toList))) = .normal
     cpySpec ⟨true, false⟩ (fun p => if p = "l" then some (.symlink .unknown (readLinkB (utf8 "a//b/".toList))) else none)
       (fun _ => none) "l" = some (.symlink .unknown (.normalized "a/b"), .notOnDest) := by decide
 
+/-- **What is equal is left alone** (file-system model, any listings, any order): an entry the destination already holds
+up to date — a folder where the source has a folder, a file carrying the source's time, a link whose text reads as the source's
+target — is named neither by a planned deletion nor by a planned creation, whatever else the two listings hold and in whatever
+order they hold it. -/
+theorem C04_equal_entry_untouched_fs (src : FPath → Option SEntry) (dst : FPath → Option Node)
+    (ls : List (FPath × SEntry)) (ld : List (FPath × Node)) (p : FPath) (e : SEntry) (n : Node)
+    (hs : src p = some e) (hd : dst p = some n) (hup : upToDate e n = true)
+    (hls : ∀ e', (p, e') ∈ ls → e' = e) (hld : ∀ n', (p, n') ∈ ld → n' = n) :
+    p ∉ (planDel src ld).map (·.1) ∧ p ∉ (planCpy dst ls).map (·.1) := by
+  have hcomp : compatible e n = true := by
+    cases e <;> cases n <;> simp_all [upToDate, compatible]
+  constructor
+  · intro h
+    obtain ⟨a, ha, e1⟩ := List.mem_map.mp h
+    obtain ⟨h1, h2⟩ := mem_planDel.mp ha
+    obtain ⟨q, n'⟩ := a
+    simp only at e1; subst e1
+    have := hld n' h1; subst this
+    simp [needDel, hs, hcomp] at h2
+  · intro h
+    obtain ⟨a, ha, e1⟩ := List.mem_map.mp h
+    obtain ⟨h1, h2⟩ := mem_planCpy.mp ha
+    obtain ⟨q, e'⟩ := a
+    simp only at e1; subst e1
+    have := hls e' h1; subst this
+    simp [needCpy, hd, hup] at h2
+
 end Rj.C04
